@@ -213,8 +213,9 @@ def run_tlc(ctx, module, constants, invariants, tag, emit_to=None, workers=4, ti
     if simulate and p.returncode == 0:
         ok = "Error:" not in text
     if not ok:
-        tail = "\n".join(text.splitlines()[-60:])
-        raise ToolError("TLC failed on %s (%s), exit %s; the MODEL (not the code) is in error:\n%s" % (module, tag, p.returncode, tail))
+        tail = "\n".join(text.splitlines()[-40:])
+        first = [l for l in text.splitlines() if l.startswith("Error:")][:2]
+        raise ToolError("TLC failed on %s (%s), exit %s; the MODEL (not the code) is in error:\n%s\n...\n%s" % (module, tag, p.returncode, "\n".join(first), tail))
     with ctx.lock:
         ctx.states += dist
         ctx.transitions += gen
